@@ -8,6 +8,9 @@ CHECKS = {
  "C01": ("exploration", "proptest-driven generated conversations + chunk schedules; round-trip oracle (reference framer -> server parser -> recording shim)",
          "Generated search over command sequences x read-chunk schedules (incl. enumerated payload sizes around k*(2^24-1) with 1-5 byte reads around every packet header); the oracle is byte-for-byte equality of what the shim saw with what the reference client framed. Exploration, not proof: absence of violations holds for the generated domain only.",
          "Trusts the harness's own framer/transport (cross-checked by the oracle self-test) and that the in-memory transport models a blocking Read faithfully."),
+ "C03": ("exploration", "proptest-driven generated conversations with generated writer-API programs; model-based oracle (abstract interpreter of the program vs. reference response state machine), sentinel PING after every command",
+         "Generated search over finite programs of the writer API (chains, zero-column sets, drops, errors after rows, shape-contradicting rows) embedded in command sequences under generated read/write chunkings; the decoded response must equal the abstract interpretation of the program, with the more-results flag on every unit but the last, and a sentinel PING after every command must get exactly one OK with sequence id 1.",
+         "Trusts the reference response state machine (written from the protocol documentation) and the program interpreter; documented misuse (dropping a fresh writer, dropping a RowWriter mid-row) is not generated."),
 }
 NOT_YET = {}
 
